@@ -450,7 +450,7 @@ def run_history(schema, C, ty, ops, R=None, reread=False, dictback=False):
                     cur = getattr(other, f["name"])
                     dd = collections.defaultdict(int if f["vkind"] in gen.RANGE else C[f["msg"]] if f["vkind"] == "message" else str if f["vkind"] == "string" else bytes if f["vkind"] == "bytes" else float if f["vkind"] in ("float", "double") else bool if f["vkind"] == "bool" else int, cur)
                     for key in list(dd):
-                        nk = key + "_" if isinstance(key, str) else key + 1 if isinstance(key, int) and not isinstance(key, bool) else None
+                        nk = key + "_" if isinstance(key, str) else (key - 1 if key > 0 else key + 1) if isinstance(key, int) and not isinstance(key, bool) else None    # (stays within the key type's range)
                         if nk is not None and nk not in dd:
                             dd[nk] = dd.pop(key)
                             differs = True
